@@ -432,8 +432,12 @@ func runC07(c *mc.Ctx) {
 					fs = append(fs, m)
 				}
 			}
+			// and every multi-byte character that a rune-wise decoder may take for the letter there
+			for _, m := range runeSubstitutions(string(b)) {
+				fs = append(fs, []byte(m))
+			}
 		}
-		c.Space("base58 strings of length 2..111 with every byte value at every position", int64(len(fs)))
+		c.Space("base58 strings of length 2..111 with every byte value (and every look-alike multi-byte character) at every position", int64(len(fs)))
 		c.ParFor(int64(len(fs)), func(w *mc.W, i int64) {
 			w.State()
 			c07EvalB58Str(w, c07Str{Fn: "b58", S: mc.Hex(fs[i])})
